@@ -50,7 +50,7 @@ theorem uint_core (A B C s' k hi mid lo : Nat) (hA : 0 < A) (hC : 0 < C)
 
 theorem readUint_splitUint (c : IntegerConfig) (hc : c.msbInToken + c.lsbInToken ≤ c.splitExponent)
     (v : Nat) (hv : v < 2 ^ 32) (rest : Bits) :
-    readUint c (tokenOf c v) (uintBits c v ++ rest) = (v, rest) := by
+    readUint c (tokenOf c v) (uintBits c v ++ rest) = .ok (v, rest) := by
   obtain ⟨se, msb, lsb⟩ := c
   simp only at hc
   unfold tokenOf uintBits splitUint readUint IntegerConfig.split
@@ -116,8 +116,7 @@ theorem readUint_splitUint (c : IntegerConfig) (hc : c.msbInToken + c.lsbInToken
           = hi * (2 ^ lsb * 2 ^ (n - (msb + lsb))) + mid * 2 ^ lsb + lo
             + 2 ^ lsb * 2 ^ (n - (msb + lsb)) * 2 ^ msb := by ring
       rw [e1, ← hsplit, ← e_n]; omega
-    rw [this]
-    exact Nat.mod_eq_of_lt hv
+    rw [this, Nat.mod_eq_of_lt hv]
 
 /-- number of extra bits the encoder emits for `v` -/
 theorem uintBits_length (c : IntegerConfig) (v : Nat) :
